@@ -139,7 +139,7 @@ impl FixtureDatabase {
 @tags C03 C06 C15 C12
 @recv mut
 @wrapexpr 1 `ann_assign.value.as_deref()` => `Self::vp_ann_value(ann_assign)` with fn vp_ann_value(ann_assign: &rustpython_parser::ast::StmtAnnAssign) -> (r: Option<&Expr>) ensures opt_deref(r) == opt_unbox(ann_assign.value)
-@wrapexpr 1 `func_name.starts_with("test_")` => `Self::vp_is_test_name(func_name)` with fn vp_is_test_name(func_name: &str) -> (r: bool) ensures r == is_test_name(func_name@)
+@wrapexpr 1 `func_name.starts_with("test")` => `Self::vp_is_test_name(func_name)` with fn vp_is_test_name(func_name: &str) -> (r: bool) ensures r == is_test_name(func_name@)
 @replace 1 `Self::all_args(args)` => `Self::vp_all_args(args)`
 @replace 2 `Self::all_args(args)` => `Self::vp_all_args(args)`
 @replace 3 `Self::all_args(args)` => `Self::vp_all_args(args)`
@@ -764,6 +764,32 @@ pub proof fn lemma_C03_recorded_flags_are_the_classification(db: FixtureDatabase
     assert(env_third_party(file) == (op_in_site_packages(opt_pbv(db.workspace_root), file)
         || op_editable_third_party(roots(db.editable_install_roots@), opt_pbv(db.workspace_root), file)));
     assert(env_is_plugin(file) == db.plugin_fixture_files.m().dom().contains(file));
+}
+//@tags C03
+/// C03 (which functions are tests): the visitor applies pytest's default `python_functions` prefix `test`, no underscore
+/// required: a function named `testlogin` (or just `test`, or `test_login`) is a test -- its parameters (except self and
+/// defaulted ones) are recorded as fixture usages, exactly the test branch of func_uses
+pub proof fn lemma_C03_test_prefix_without_underscore(v: FnV, f: PV, li: Seq<usize>)
+    ensures is_test_name("testlogin"@), is_test_name("test"@), is_test_name("test_login"@),
+        (v.name == "testlogin"@ && first_fix(v.decos, 0) is None && no_marks(v.decos)) ==>
+            func_uses(v, f, li) =~= param_uses(all_params(v.args), all_params(v.args).len() as int, false, f, li),
+{
+    reveal(is_test_name);
+    reveal_strlit("test"); reveal_strlit("testlogin"); reveal_strlit("test_login");
+    assert("testlogin"@.subrange(0, 4) =~= "test"@);
+    assert("test"@.subrange(0, 4) =~= "test"@);
+    assert("test_login"@.subrange(0, 4) =~= "test"@);
+    if v.name == "testlogin"@ && first_fix(v.decos, 0) is None && no_marks(v.decos) {
+        lemma_decos_uses_no_marks(v.decos, v.decos.len() as int, 0, f, li);
+        lemma_decos_uses_no_marks(v.decos, v.decos.len() as int, 1, f, li);
+    }
+}
+/// canary: "a proper prefix of `test`, or a name that merely contains it, is a test name"
+pub proof fn canary_tes_or_atest_is_test_name()
+    ensures is_test_name("tes"@) || is_test_name("atest"@),
+{
+    reveal(is_test_name);
+    reveal_strlit("test"); reveal_strlit("tes"); reveal_strlit("atest");
 }
 /// canary: "the environment hypothesis is contradictory"
 pub proof fn canary_env_ok_contradictory(db: FixtureDatabase)
